@@ -46,7 +46,8 @@ impl<L: Default, F, D: Data<Elem = F>> PredictInplace<ArrayBase<D, Ix2>, Array2<
             .flat_map(|model| {
                 let mut targets = Array1::default(arr.nrows());
                 model.predict_inplace(arr, &mut targets);
-                targets.into_raw_vec()
+                // logical order, whatever layout the member handed back
+                targets.into_iter().collect::<Vec<L>>()
             })
             .collect::<Array1<L>>()
             .into_shape((self.models.len(), arr.len_of(Axis(0))))
